@@ -40,6 +40,33 @@ class ExprMixin:
         memo[key] = (Lin.sym(q), Lin.sym(r))
         return memo[key]
 
+    def is_enum(self, ci):
+        return any(isinstance(b, str) and b.split('.')[-1] in ('Enum', 'IntEnum', 'Flag', 'IntFlag', 'StrEnum') for b in ci.mro)
+
+    def enum_members(self, ci):
+        """the members of an enum.Enum subclass, in definition order: objects with name / value (and what __init__ sets)"""
+        key = ('enum', ci.qualname)
+        if key in self.modcache:
+            return self.modcache[key]
+        members = []
+        self.modcache[key] = members
+        for name, expr in ci.attrs.items():
+            if name.startswith('_') or name in ci.ann_fields and name not in ci.attrs:
+                continue
+            val = self.eval_in_module(ci.module, expr, class_scope=ci)
+            m = ObjV(ci)
+            m.fields['name'] = lit(name)
+            m.fields['_name_'] = lit(name)
+            m.fields['value'] = val
+            m.fields['_value_'] = val
+            m.enum_member = name
+            r = ci.lookup('__init__')
+            if r is not None and r[0] == 'method':
+                args = list(val.items) if isinstance(val, TupleV) else [val]
+                self.call_function(r[1], args, {}, self_obj=m)
+            members.append(m)
+        return members
+
     def xor_atoms(self, lin):
         """Operands of the XOR chain that produced the integer `lin` (itself, when it is not a XOR)."""
         lin = self.store.canon(Lin.of(lin))
@@ -284,6 +311,45 @@ class ExprMixin:
             self.stack = saved_stack
         return ConstV(None)
 
+    def ex_YieldFrom(self, node):
+        """yield from X  ==  for item in X: yield item   (a sub-generator runs inline, its yields reach the same consumer)"""
+        src = self.resolve(self.eval(node.value))
+        cons = getattr(self, 'consumers', None)
+        if not cons:
+            self.note_unknown(node, 'yield from without an active consuming loop')
+            return ConstV(None)
+        if isinstance(src, GenCallV):
+            if src.started:
+                self.note_unknown(node, 'generator consumed twice')
+                return ConstV(None)
+            src.started = True
+            self._starting_generator = True
+            return self.call_function(src.fi, src.args, src.kwargs, self_obj=src.self_obj, node=node, cls_obj=src.cls_obj,
+                                      closure=src.closure)
+        tree = getattr(node, '_desugared', None)
+        var = f'__yf_{node.lineno}_{node.col_offset}'
+        if tree is None:
+            loop = ast.For(target=ast.Name(id=var, ctx=ast.Store()), iter=ast.Name(id=var + '_src', ctx=ast.Load()),
+                           body=[ast.Expr(value=ast.Yield(value=ast.Name(id=var, ctx=ast.Load())))], orelse=[])
+            ast.copy_location(loop, node)
+            ast.fix_missing_locations(loop)
+            for n in ast.walk(loop):
+                for ch in ast.iter_child_nodes(n):
+                    ch._parent = n
+            fi = self.prog.node_owner.get(id(node))
+            if fi is not None:
+                for n in ast.walk(loop):
+                    self.prog.node_owner.setdefault(id(n), fi)
+            node._desugared = tree = loop
+        fr = self.frames[-1]
+        fr.locals[var + '_src'] = src
+        try:
+            self.exec_stmt(tree)
+        finally:
+            fr.locals.pop(var + '_src', None)
+            fr.locals.pop(var, None)
+        return ConstV(None)
+
     def ex_NamedExpr(self, node):
         v = self.eval(node.value)
         self.assign(node.target, v, node)
@@ -315,6 +381,8 @@ class ExprMixin:
         if isinstance(v, (ObjV, FileV, FuncV, ClassV, ModV, ExtV, ExcV, BoundExt, IterV)):
             return True
         if isinstance(v, RangeV):
+            if v.step != 1:
+                return self.decide_ge0(self.range_count(v) - 1)
             return self.decide_ge0(Lin.of(v.hi) - Lin.of(v.lo) - 1)
         if isinstance(v, SymV):
             key = ('truth', v.name)
@@ -783,6 +851,10 @@ class ExprMixin:
             self.note_unknown(node, f'attribute {name} of {obj!r}')
             return UnkV(f'attr {name}')
         if isinstance(obj, ClassV):
+            if self.is_enum(obj.ci) and name in obj.ci.attrs and not name.startswith('_'):
+                for m in self.enum_members(obj.ci):
+                    if m.enum_member == name:
+                        return m
             r = obj.ci.lookup(name)
             if r is not None:
                 if r[0] == 'method':
